@@ -151,6 +151,38 @@ def run(ctx, R, tier):
                     "`for ... in %s` deletes/rewrites entries of the dict it is iterating: the first edit raises RuntimeError, the rest of the function "
                     "(for _clientDisconnect: the user's disconnect hook) is skipped" % unparse(it))
 
+    # the handlers that contain a failing hook / a failing request must not fail themselves: what they do besides logging is nothing, and what they log is computed
+    # without indexing or %-formatting a value of unknown shape (peer addresses are tuples, '' or None; exception args may be empty)
+    def fragile(stmt):
+        for x in walk_no_nested(stmt):
+            if isinstance(x, ast.Subscript) and not isinstance(x.value, (ast.Constant, ast.Tuple, ast.List, ast.Dict)):
+                return x
+            if isinstance(x, ast.BinOp) and isinstance(x.op, ast.Mod) and isinstance(x.left, ast.Constant) and isinstance(x.left.value, str) \
+                    and x.left.value.count("%") - 2 * x.left.value.count("%%") >= 2 and not isinstance(x.right, (ast.Tuple, ast.Dict)):
+                return x
+        return None
+    for fq, what in (("Pyro5.svr_threads.ClientConnectionJob.__call__", CD), ("Pyro5.svr_multiplex.SocketServer_Multiplex.events", CD),
+                     ("Pyro5.svr_multiplex.SocketServer_Multiplex.handleRequest", "Pyro5.server.Daemon.handleRequest")):
+        g = ctx.fn(fq)
+        calls_ = ctx.calls_to(g, what)
+        bad = None
+        n_h = 0
+        for c_ in calls_:
+            for t, part in enclosing_trys(c_, g.node):
+                if part != "body":
+                    continue
+                for h in t.handlers:
+                    n_h += 1
+                    for st in h.body:
+                        fr = fragile(st)
+                        if fr is not None and not any(p2 == "body" and any(handler_is_catch_all(h2) or any(nm in unparse(h2.type) for nm in ("TypeError", "IndexError", "LookupError", "KeyError")) for h2 in t2.handlers)
+                                                      for t2, p2 in enclosing_trys(fr, g.node) if t2 is not t and any(x is t2 for x in ast.walk(h))):
+                            bad = fr
+        R.check(bad is None and n_h >= 1, "C13-R4", "%s|handlers-cannot-fail" % g.qualname.split(".", 2)[2], "the handlers around %s log without indexing or tuple-%%-formatting values of unknown shape (%d handlers)" % (
+            what.rsplit(".", 1)[1], n_h), g.loc(bad) if bad is not None else g.loc(),
+            "`%s` inside the handler can itself raise (empty exception args, '' as peer address of a unix socket): the new error leaves the handler, the clean-up that follows it "
+            "(hook / close / unregister) is skipped, and in the multiplex server the request loop ends" % (unparse(bad, 60) if bad is not None else ""))
+
     # ---------------------------------------------------------------- R4
     trys = [t for t, part in enclosing_trys(hr[0], f.node) if part == "body"]
     T = trys[0] if trys else None
